@@ -61,17 +61,22 @@ Print Assumptions C16_xml_term.
    in order and row by row its bound cells (all-unbound rows kept); otherwise the serialiser refuses
    (ResultException) - it never writes a document that cannot be read or that reads differently *)
 Theorem C16_xml_select : forall c, wf c = true -> c_fmt c = FXml -> c_ask c = None ->
-  model_obs c = if xml_expressible c then OSel (c_vars c) (map bound_of (c_rows c)) else ORefused.
+  format_obs c = if xml_expressible c then OSel (c_vars c) (map bound_of (c_rows c)) else ORefused.
 Proof. exact xml_select. Qed.
 Print Assumptions C16_xml_select.
 
-Theorem C16_xml_result : forall c, wf c = true -> c_fmt c = FXml -> spec_ok c (model_obs c) = true.
+Theorem C16_xml_result : forall c, wf c = true -> c_fmt c = FXml -> spec_ok c (format_obs c) = true.
 Proof. exact xml_ok. Qed.
 Print Assumptions C16_xml_result.
 
-(* TSV: the reader's TERM scanner recovers every term from every rendering of the W3C term grammar
-   (either quote, optional ECHARs - that of the other quote included -, bare integers and booleans),
-   whatever follows in the row *)
+(* TSV: the reader's TERM scanner recovers every term from every rendering of this family (16 styles):
+   IRIREF, BLANK_NODE_LABEL, STRING_LITERAL1/2 with any choice of the optional ECHARs, language tag or
+   datatype; and the bare forms true/false, INTEGER and -INTEGER (canonical), DECIMAL and -DECIMAL
+   (canonical integer part) - i.e. every shorthand whose lexical form Literal() keeps.  NOT in the family:
+   DOUBLE shorthands and +signed numbers (rdflib reads them but Literal() re-spells the lexical form: "1e0"
+   comes back as "1.0"^^xsd:double - the value survives, the term of the rendering does not; such terms are
+   not fixed points of rdflib's own constructor and cannot be written by rdflib), long-quoted strings and
+   \u escapes (not part of the TSV term syntax the reader's grammar uses). *)
 Theorem C16_tsv_terms : forall st t rest,
   term_wf t = true -> term_tsv_ok t = true -> at_empty rest = true ->
   scan_term (render_term st t ++ rest) = Some (t, rest).
@@ -100,7 +105,7 @@ Theorem C16_tsv_rows : forall st vars rows,
 Proof. exact tsv_doc_ok. Qed.
 Print Assumptions C16_tsv_rows.
 
-Theorem C16_tsv_result : forall c, wf c = true -> c_fmt c = FTsv -> spec_ok c (model_obs c) = true.
+Theorem C16_tsv_result : forall c, wf c = true -> c_fmt c = FTsv -> spec_ok c (format_obs c) = true.
 Proof. exact tsv_ok. Qed.
 Print Assumptions C16_tsv_result.
 
@@ -121,7 +126,7 @@ Proof. exact csv_roundtrip_text. Qed.
 Print Assumptions C16_csv_roundtrip_text.
 
 (* CSV: header, row sequence and the string value of every cell, as Python's csv module reads them *)
-Theorem C16_csv_cells : forall c, wf c = true -> c_fmt c = FCsv -> spec_ok c (model_obs c) = true.
+Theorem C16_csv_cells : forall c, wf c = true -> c_fmt c = FCsv -> spec_ok c (format_obs c) = true.
 Proof. exact csv_cells_ok. Qed.
 Print Assumptions C16_csv_cells.
 
@@ -134,7 +139,7 @@ Theorem C16_csv_parse : forall k vars rows,
 Proof. exact csv_parse_serialize. Qed.
 Print Assumptions C16_csv_parse.
 
-Theorem C16_csv_parse_result : forall c, wf c = true -> c_fmt c = FCsvP -> spec_ok c (model_obs c) = true.
+Theorem C16_csv_parse_result : forall c, wf c = true -> c_fmt c = FCsvP -> spec_ok c (format_obs c) = true.
 Proof. exact csvp_ok. Qed.
 Print Assumptions C16_csv_parse_result.
 
@@ -142,14 +147,33 @@ Print Assumptions C16_csv_parse_result.
    reader around a byte source did - an unquoted field with a form feed is split and the row sequence
    changes; the case itself is accepted now *)
 Theorem C16_csv_bytes_prefix_refuted :
-  (wf w_F11i = true /\ spec_ok w_F11i (model_obs w_F11i) = true
-   /\ model_obs w_F11i = OSel [vx] [[(vx, Lit [97; 12; 98] None None)]; [(vx, iri_a)]])
+  (wf w_F11i = true /\ spec_ok w_F11i (format_obs w_F11i) = true
+   /\ format_obs w_F11i = OSel [vx] [[(vx, Lit [97; 12; 98] None None)]; [(vx, iri_a)]])
   /\ csv_parse LSplit (csv_text (csv_serialize (c_vars w_F11i) (c_rows w_F11i)))
      = OSel [vx] [[(vx, Lit [97; 12] None None)]; [(vx, Lit [98] None None)]; [(vx, iri_a)]].
 Proof. exact csv_bytes_prefix_refuted. Qed.
 Print Assumptions C16_csv_bytes_prefix_refuted.
 
-(* model and checker, all formats, every well-formed case *)
+(* the formats, every well-formed case: what a format makes of the rows it is given satisfies the checker *)
+Theorem C16_format_ok : forall c, wf c = true -> spec_ok c (format_obs c) = true.
+Proof. exact format_ok. Qed.
+Print Assumptions C16_format_ok.
+
+(* the Result object between evaluation and serialisation: a lazily evaluated result (Graph.query) on which
+   next() was called any number of times hands the serialisers all its rows (since ef926fa5 also the
+   solutions without bindings the iteration passed) *)
+Theorem C16_result_rows_kept : forall c, result_rows c = c_rows c.
+Proof. exact result_rows_kept. Qed.
+Print Assumptions C16_result_rows_kept.
+
+(* history (F11j): what the iteration before ef926fa5 left of the witness *)
+Theorem C16_partial_iteration_prefix_refuted :
+  (wf w_F11j = true /\ spec_ok w_F11j (model_obs w_F11j) = true)
+  /\ (let '(a, b) := consume_prefix 1 (c_rows w_F11j) in a ++ b) = [[(vx, Some iri_a)]; []; [(vx, Some iri_a)]].
+Proof. exact partial_iteration_prefix_refuted. Qed.
+Print Assumptions C16_partial_iteration_prefix_refuted.
+
+(* model and checker: Result object + format, every well-formed case, no trigger *)
 Theorem C16_spec_ok_model : forall c, wf c = true -> spec_ok c (model_obs c) = true.
 Proof. exact spec_ok_model. Qed.
 Print Assumptions C16_spec_ok_model.
@@ -235,14 +259,14 @@ Example C16_nonvacuous :
   let t0 := Lit [48] (Some xsd_integer) None in
   let c := {| c_fmt := FXml; c_ask := None; c_vars := [[120]; [121]];
               c_rows := [[([120], Some t1)]; []; [([120], Some t2)]; [([121], Some (IRI [])); ([120], Some t0)]];
-              c_style := st0; c_bytes := true; c_src := 1 |} in
+              c_style := st0; c_bytes := true; c_src := 1; c_pre := 0 |} in
   wf c = true /\ xml_expressible c = true
-  /\ model_obs c = OSel [[120]; [121]] [[([120], t1)]; []; [([120], t2)]; [([121], IRI []); ([120], t0)]]
-  /\ (wf w_F11b = true /\ xml_expressible w_F11b = false /\ model_obs w_F11b = ORefused)
+  /\ format_obs c = OSel [[120]; [121]] [[([120], t1)]; []; [([120], t2)]; [([121], IRI []); ([120], t0)]]
+  /\ (wf w_F11b = true /\ xml_expressible w_F11b = false /\ format_obs w_F11b = ORefused)
   /\ let c' := {| c_fmt := FTsv; c_ask := None; c_vars := [[120]; [121]];
                   c_rows := [[([121], Some (Lit [97; 8232; 39; 34] None None))]; [];
                              [([120], Some t0); ([121], Some (BNode [98; 46; 99]))]];
                   c_style := {| st_sq := true; st_esc_all := true; st_bare := true; st_cross := true |};
-                  c_bytes := true; c_src := 1 |} in
-     wf c' = true /\ spec_ok c' (model_obs c') = true.
+                  c_bytes := true; c_src := 1; c_pre := 0 |} in
+     wf c' = true /\ spec_ok c' (format_obs c') = true.
 Proof. vm_compute. repeat split. Qed.
